@@ -348,6 +348,7 @@ impl Agg {
             ("env_change", f.env_change),
             ("debug_session", f.debug_session),
             ("heap_layout", f.heap_layout),
+            ("clock", f.clock),
         ] {
             if v > 0 {
                 Self::bump(&mut self.fault_execs, k, 1);
@@ -765,7 +766,7 @@ fn cmd_run(args: &[String]) -> i32 {
             "reference_contexts_computed": agg.refs_computed,
             "executions_per_hour": ((agg.evaluations as f64) / wall * 3600.0).round(),
             "seeds_per_hour": "one VERIF_SEED per run; every execution has its own derived seed, so seeds per hour = executions_per_hour",
-            "simulated_time": "none: the library has no clock, timer or deadline (DESIGN.md §1); progress is measured in scheduler steps",
+            "simulated_time": "the library has no timer or deadline (DESIGN.md §1); clock_gettime is interposed all the same: a simulated process reads epoch + readings x step, step = 1 µs in the reference and 1 ms / 1 s / 50 s per reading under the clock fault; progress is measured in scheduler steps",
             "scheduler_steps": agg.steps,
             "context_switches": agg.switches,
             "event_log_events": agg.nevents,
